@@ -37,6 +37,12 @@ mod c19;
 
 use util::*;
 
+fn run_c01(out: &mut Out, tier: &str, rng: &mut Rng) {
+    c01::run(out, tier, rng);
+    authgen::run_c01_auth(out, tier, rng);
+    out.rule.push_str("; authority level: real NetworkAuthority (recv / tick / command clones) with 1-2 hydraulic units whose timeouts are absent / expired / far away: random histories of motion commands, cycles, the unit's own status frames, foreign frames and engine commands");
+}
+
 fn run_c06(out: &mut Out, tier: &str, rng: &mut Rng) {
     drv::run_c06(out, tier, rng);
     authgen::run_c06_auth(out, tier, rng);
@@ -55,9 +61,10 @@ fn main() {
     let path = args[4].as_str();
     std::env::set_var("RUST_BACKTRACE", "0");
     silence_panics();
+    log_everything();
     let mut rng = Rng::new(seed);
     let f: fn(&mut Out, &str, &mut Rng) = match prop {
-        "C01" => c01::run,
+        "C01" => run_c01,
         "C02" => c02::run,
         "C03" => c03::run,
         "C04" => c04::run,
